@@ -210,6 +210,15 @@ class C04(Prop):
             plan["alt"] = shuffle_schedule(b.ops, rng)
             plan["alt2"] = shuffle_schedule(b.ops, rng)
             plan["ext_kind"] = None
+            fop = next((o for o in b.ops if o["op"] == "func" and o["cls"] in ("ConvexQGFunction", "RsiEbFunction")), None)
+            if case == "order-value" and fop is not None and \
+                    not any(o["op"] == "stationary" and o.get("f") == fop["out"] for o in b.ops):
+                # these classes record a stationary point of their own at solve time when the user declared none:
+                # declaring it (and not using it) is another route to the same samples
+                k = b.ops.index(fop) + 1 + rng.randrange(len(b.ops) - b.ops.index(fop))
+                plan["alt2"] = b.ops[:k] + [{"op": "stationary", "out": ["im_xs", "im_gs", "im_fs"],
+                                             "f": fop["out"]}] + b.ops[k:]
+                plan["tag"] += "/implicit-vs-declared-stationary-point"
         else:
             extra, kind = extension(b.ops, info, rng)
             plan["alt"] = list(b.ops) + extra
@@ -269,6 +278,10 @@ class C04(Prop):
                     viol.append({"oracle": "C04/order", "signature": "class-lmis-depend-on-declaration-order",
                                  "detail": {}})
             else:
+                if k == "alt2" and "implicit-vs-declared" in plan.get("tag", "") and \
+                        base.get("sizes") != other.get("sizes"):
+                    viol.append({"oracle": "C04/value", "signature": "class-rows-depend-on-who-declared-the-stationary-point",
+                                 "detail": {"implicit": base.get("sizes"), "declared": other.get("sizes")}})
                 okb = base.get("status") == "ok"
                 oko = other.get("status") == "ok"
                 vb, vo = base.get("value"), other.get("value")
